@@ -152,7 +152,7 @@ def worker(version, args):
                     else:
                         R.traces += 1
                 else:
-                    if not o_b.startswith("ok") or o_d != e[0] or f"eof={e[1]} " not in o_b:
+                    if not o_b.startswith("ok") or cc.canon_nan(o_d) != cc.canon_nan(e[0]) or f"eof={e[1]} " not in o_b:
                         R.mismatch(f"malformed ({kind}): library loads, model differs", {"version": version, "op": "malformed", "kind": kind,
                                    "diff": cc.first_diff(e[0], o_d) if o_b.startswith("ok") else {}}, impl="ok eof=" + e[1], model=o_b[:80])
                     else:
